@@ -635,6 +635,48 @@ def check_include_context(ev, fails):
                 ev.case(key=["include-context", u, tag, strict], nontrivial=u in ("/inc/a.html", "/inc/b.html"), labels=("include-context",))
 
 
+# ---- a template with <%namespace> tags in an inheritance chain reached several times within one render -------------------
+def check_namespaces_twice(ev, fails):
+    """expectations by construction: every inclusion sets up its own chain (its own self, its inheritable namespaces, the
+    inline defs of the base bound to that chain)"""
+    from mako.lookup import TemplateLookup
+
+    T = {
+        "/cards/base.html": '<%namespace name="fmt" inheritable="True"><%def name="star(x)">*${x}*</%def></%namespace><card>${next.body()}</card>',
+        "/cards/a.html": '<%inherit file="base.html"/>${self.fmt.star("a")}',
+        "/cards/b.html": '<%inherit file="base.html"/>${self.fmt.star("b")}',
+        "/cards/page.html": '<%inherit file="base.html"/>${self.fmt.star("p")}+<%include file="a.html"/>',
+        "/tags/base.html": '<%namespace name="t" inheritable="True"><%def name="tag(x)">[${self.attr.label}]${x}</%def></%namespace><tag>${next.body()}</tag>',
+        "/tags/a.html": '<%! label = "A" %><%inherit file="base.html"/>${self.t.tag("a")}',
+        "/tags/b.html": '<%! label = "B" %><%inherit file="base.html"/>${self.t.tag("b")}',
+        "/twice.html": '<%include file="/cards/a.html"/>|<%include file="/cards/a.html"/>',
+        "/loop.html": '% for i in range(3):\n<%include file="/cards/a.html"/>\n% endfor\n',
+        "/two.html": '<%include file="/cards/a.html"/>|<%include file="/cards/b.html"/>',
+        "/tags.html": '<%include file="/tags/a.html"/>|<%include file="/tags/b.html"/>|<%include file="/tags/a.html"/>',
+    }
+    want = {
+        "/twice.html": "<card>*a*</card>|<card>*a*</card>", "/loop.html": "<card>*a*</card>\n" * 3,
+        "/two.html": "<card>*a*</card>|<card>*b*</card>", "/cards/page.html": "<card>*p*+<card>*a*</card></card>",
+        "/tags.html": "<tag>[A]a</tag>|<tag>[B]b</tag>|<tag>[A]a</tag>",
+    }
+    for strict in (False, True):
+        lk = TemplateLookup(strict_undefined=strict)
+        for u, src in T.items():
+            lk.put_string(u, src)
+        for rnd in (1, 2):  # (and again: a second render of the same templates)
+            for u, exp in sorted(want.items()):
+                case = {"part": "namespaces-twice", "uri": u, "strict": strict}
+                try:
+                    got = lk.get_template(u).render_unicode()
+                except Exception as e:  # noqa: BLE001
+                    got = "%s: %s" % (type(e).__name__, str(e)[:100])
+                if got != exp:
+                    f = Failure(case, "%s (strict_undefined=%s, render %d): expected %r, got %r\n%s" % (u, strict, rnd, exp, got,
+                                "\n".join("--- %s ---\n%s" % kv for kv in sorted(T.items()))), "namespaces-twice")
+                    fails.setdefault(f.key, f)
+                ev.case(key=["namespaces-twice", u, strict, rnd], nontrivial=True, labels=("namespaces-twice",))
+
+
 def shard(task):
     seed, n = task
     core.setup_repo()
@@ -648,6 +690,7 @@ def run(ctx):
     core.setup_repo()
     check_block_exports(ctx.ev, fails)
     check_include_context(ctx.ev, fails)
+    check_namespaces_twice(ctx.ev, fails)
     for f in fails.values():
         ctx.fail(f)
     n = ctx.pick(600, 10000)
@@ -656,6 +699,10 @@ def run(ctx):
 
 def replay(case):
     core.setup_repo()
+    if case.get("part") == "namespaces-twice":
+        fails = {}
+        check_namespaces_twice(core.Evidence(), fails)
+        return next(iter(fails.values()), None)
     if case.get("part") == "include-context":
         fails = {}
         check_include_context(core.Evidence(), fails)
